@@ -97,6 +97,38 @@ def stage_entry_budget_e2e(ctx):
                             st.violation('entry-point-budget', f'connect(family={fam!r}, port={port}, timeout={timeout}, retries={retries}): the {what} (registers {lo}..) stayed '
                                                                f'unanswered and was transmitted {len(lost)} time(s), expected retries + 1 = {retries + 1}', dict(config=cfg, transmissions=len(lost)))
                         if not lost: st.count('probe-not-sent')
+    # the same endpoint (host, port, comm_addr) connected to twice in one process, with different budgets: the first connect() is served completely,
+    # the second finds one block unanswered -- it must be transmitted the SECOND call's retries + 1 times
+    pairs = [((1, 0), (1, 3)), ((2, 3), (1, 1)), ((1, 2), (1, 0))] if not ctx.deep else [(a, b) for a in grid for b in grid if a != b][::3]
+    for fam, tg in targets.items():
+        for port in ((8899, 502) if fam != 'ES' else (8899,)):
+            for (t1, r1), (t2, r2) in pairs:
+                for lo, hi, what in tg[:1]:
+                    goodwe = SI.reload_goodwe()
+                    with SI.e2e():
+                        sim = SI.Sim(seed=ctx.rng.randrange(1 << 30))
+                        if fam == 'ET': SI.et_identity(sim, serial=IM.ET_SERIALS['205 three-phase'], rated=10000, arm_fw=22)
+                        else: SI.dt_identity(sim, serial=IM.DT_SERIALS['three-phase'])
+                        host = SI.e2e_host(sim)
+                        cfg = dict(entry_point='connect twice to the same endpoint', family=fam, port=port, first=dict(timeout=t1, retries=r1),
+                                   second=dict(timeout=t2, retries=r2), silent_during_second=what)
+                        st.case((fam, port, t1, r1, t2, r2, what, 'twice'), sample=cfg if len(st.samples) < 4 else None)
+                        try:
+                            SI.run_e2e(goodwe.connect(host, port, fam, 0, t1, r1))
+                        except Exception as ex:      # noqa
+                            st.count('first-connect-raises:' + type(ex).__name__)
+                        n0 = len(sim.log)
+                        sim.silent = [(lo, hi)]
+                        try:
+                            SI.run_e2e(goodwe.connect(host, port, fam, 0, t2, r2))
+                        except Exception as ex:      # noqa
+                            st.count('connect-raises:' + type(ex).__name__)
+                        lost = [e for e in sim.log[n0:] if e.get('lost') and e.get('reg') is not None and lo <= e['reg'] <= hi]
+                        if lost and len(lost) != r2 + 1:
+                            st.violation('entry-point-budget', f'connect(family={fam!r}, port={port}, timeout={t1}, retries={r1}) and then, same host/port/comm_addr, '
+                                                               f'connect(..., timeout={t2}, retries={r2}): during the second call the {what} (registers {lo}..) stayed unanswered '
+                                                               f'and was transmitted {len(lost)} time(s), expected retries + 1 = {r2 + 1}', dict(config=cfg, transmissions=len(lost)))
+                        if not lost: st.count('probe-not-sent')
     return st
 
 
